@@ -174,7 +174,10 @@ def cg(A: LinearOperator, B: torch.Tensor,
         # the columns that have converged to rounding level are frozen (zero
         # residual, so they are not updated any more) instead of being iterated
         # further on rounding noise while waiting for the other columns
-        rk_1 = torch.where(resid_norm <= noise_matrix, torch.zeros_like(rk_1), rk_1)
+        # (only if they meet the stopping condition: the rounding level may lie
+        # above it, e.g. float32 with the default tolerances)
+        frozen = (resid_norm <= noise_matrix) & (resid_norm < stop_matrix)
+        rk_1 = torch.where(frozen, torch.zeros_like(rk_1), rk_1)
 
         zk_1 = precond_fcn(rk_1)
         rkzk_1 = _dot(rk_1, zk_1)
@@ -327,7 +330,9 @@ def bicgstab(A: LinearOperator, B: torch.Tensor,
         # the columns that have converged to rounding level are frozen (zero
         # residual, so they are not updated any more) instead of being iterated
         # further on rounding noise while waiting for the other columns
-        rk = torch.where(resid_norm <= noise_matrix, torch.zeros_like(rk), rk)
+        # (only if they meet the stopping condition, see cg)
+        frozen = (resid_norm <= noise_matrix) & (resid_norm < stop_matrix)
+        rk = torch.where(frozen, torch.zeros_like(rk), rk)
 
         rho_k = rho_knew
 
